@@ -463,3 +463,406 @@ def all_differences(a, b, path='', out=None, limit=40):
     elif a != b:
         out.append((path, a, b))
     return out
+
+
+# ---------------------------------------------------------------------------
+# family 'reent': a lookup interrupted, at a chosen callback point, by code that mutates the registry
+# ---------------------------------------------------------------------------
+
+RE_ENTRY = ['lookup', 'lookup1', 'queryAdapter', 'adapter_hook', 'lookupAll', 'subscriptions', 'queryMultiAdapter', 'subscribers',
+            'names']
+RE_POINT = ['uncached-before', 'uncached-after', 'lazy-required', 'providedBy-descriptor', 'factory', 'provided-hash',
+            'value-destructor', 'name-hash', 'required-key-eq', 'unhashable-provided-error-path']
+RE_MUT = ['register-more-specific', 'unregister', 'subscribe', 'changed-only', 'rebase', 'register-then-lookup-other-key']
+RE_WARM = ['cold', 'warm-other-key', 'warm-same-key-then-changed']
+
+
+class _Fac:
+    def __init__(self, tag, hook=None):
+        self.tag, self.hook = tag, hook
+
+    def __call__(self, *obs):
+        if self.hook is not None:
+            self.hook()
+        return ('made', self.tag)
+
+    def __repr__(self):
+        return '<Fac %s>' % self.tag
+
+
+def _tagval(v):
+    if isinstance(v, _Fac):
+        return v.tag
+    if isinstance(v, (list, tuple)):
+        return [_tagval(x) for x in v]
+    return v if v is None or isinstance(v, (str, int)) else type(v).__name__
+
+
+def run_reent(program):
+    """program = (flavour, entry, point, mutation, warm).  Returns None when the entry point never reaches the
+    callback point; else a dict with the interrupted call's answer, the answer of the same call repeated afterwards,
+    the reference answers before / after the mutation (twin registries, no interruption), whether any of the fresh
+    dictionaries allocated by the callback was written to (write through a dangling cache pointer), exceptions and
+    reference-count deltas."""
+    import gc
+    import sys
+    (flav, entry, point, mut, warm) = program
+    from zope.interface import Interface, implementer, providedBy
+    from zope.interface.adapter import (AdapterLookup, AdapterRegistry, VerifyingAdapterLookup, VerifyingAdapterRegistry)
+    from zope.interface.interface import InterfaceClass
+    en, pt, mu = RE_ENTRY[entry], RE_POINT[point], RE_MUT[mut]
+    needs_object = en in ('queryAdapter', 'adapter_hook', 'queryMultiAdapter', 'subscribers')
+    if pt == 'lazy-required' and en not in ('lookup', 'lookupAll', 'subscriptions', 'names', 'queryMultiAdapter', 'subscribers'):
+        return None
+    if pt == 'providedBy-descriptor' and not needs_object:
+        return None
+    if pt == 'factory' and en not in ('queryAdapter', 'adapter_hook', 'queryMultiAdapter', 'subscribers'):
+        return None
+    if pt == 'required-key-eq' and en not in ('lookup', 'lookup1', 'lookupAll', 'subscriptions', 'names'):
+        return None
+    if pt == 'name-hash' and en in ('lookupAll', 'subscriptions', 'names', 'subscribers'):
+        return None
+
+    if pt == 'unhashable-provided-error-path':
+        if mut != 0 or warm != 0:
+            return None
+        return _reent_error_path(flav, en)
+
+    state = dict(fired=False, witness=[], hook=None, inner=None)
+
+    def fire():
+        if state['fired'] or state['hook'] is None:
+            return
+        state['fired'] = True
+        state['hook']()
+        # fresh dictionaries: CPython hands a just-released dict back from its free list, so a later write
+        # through a dangling pointer to a released cache dict lands in one of these
+        state['witness'] = [dict() for _ in range(24)]
+
+    base_lookup = AdapterLookup if flav == 0 else VerifyingAdapterLookup
+
+    class HookedLookup(base_lookup):
+        def _uncached_lookup(self, required, provided, name=''):
+            if pt == 'uncached-before':
+                fire()
+            r = base_lookup._uncached_lookup(self, required, provided, name)
+            if pt == 'uncached-after':
+                fire()
+            return r
+
+        def _uncached_lookupAll(self, required, provided):
+            if pt == 'uncached-before':
+                fire()
+            r = base_lookup._uncached_lookupAll(self, required, provided)
+            if pt == 'uncached-after':
+                fire()
+            return r
+
+        def _uncached_subscriptions(self, required, provided):
+            if pt == 'uncached-before':
+                fire()
+            r = base_lookup._uncached_subscriptions(self, required, provided)
+            if pt == 'uncached-after':
+                fire()
+            return r
+
+    class HookedRegistry(AdapterRegistry if flav == 0 else VerifyingAdapterRegistry):
+        LookupClass = HookedLookup
+
+    def world(hooked):
+        w = {}
+        mod = 'vp_reent'
+        w['IR0'] = InterfaceClass('IR0', (Interface,), {}, __module__=mod)
+        w['IR1'] = InterfaceClass('IR1', (w['IR0'],), {}, __module__=mod)
+        if pt == 'provided-hash' and hooked:
+            class HashingIface(InterfaceClass):
+                def __hash__(self):
+                    fire()
+                    return InterfaceClass.__hash__(self)
+
+                def __eq__(self, other):
+                    return self is other
+            w['P'] = HashingIface('P', (Interface,), {}, __module__=mod)
+        else:
+            w['P'] = InterfaceClass('P', (Interface,), {}, __module__=mod)
+        w['Q'] = InterfaceClass('Q', (Interface,), {}, __module__=mod)
+        ns = {}
+        if pt == 'providedBy-descriptor' and hooked:
+            class Desc:
+                def __get__(self, inst, owner):
+                    if inst is None:
+                        return self
+                    fire()
+                    from zope.interface.declarations import getObjectSpecification
+                    return getObjectSpecification(inst)
+            ns['__providedBy__'] = Desc()
+        K = implementer(w['IR1'])(type('K', (object,), {}))
+        if ns:
+            K.__providedBy__ = ns['__providedBy__']
+        w['K'], w['ob'] = K, K()
+        reg = (HookedRegistry if hooked else (AdapterRegistry if flav == 0 else VerifyingAdapterRegistry))()
+        other = (AdapterRegistry if flav == 0 else VerifyingAdapterRegistry)()
+        w['reg'], w['other'] = reg, other
+        w['f_old'] = _Fac('old', fire if (pt == 'factory' and hooked) else None)
+        w['f_new'] = _Fac('new')
+        w['f_named'] = _Fac('named')
+        w['f_base'] = _Fac('base')
+        w['s_old'] = _Fac('s-old', fire if (pt == 'factory' and hooked) else None)
+        w['s_new'] = _Fac('s-new')
+        reg.register([w['IR0']], w['P'], '', w['f_old'])
+        reg.register([w['IR0'], w['IR0']], w['P'], '', w['f_old'])
+        reg.register([w['IR0']], w['Q'], '', w['f_named'])
+        reg.subscribe([w['IR0']], w['P'], w['s_old'])
+        other.register([w['IR0']], w['P'], 'n', w['f_base'])
+        return w
+
+    def mutate(w):
+        reg = w['reg']
+        if mu == 'register-more-specific':
+            reg.register([w['IR1']], w['P'], '', w['f_new'])
+            reg.register([w['IR1'], w['IR0']], w['P'], '', w['f_new'])
+        elif mu == 'unregister':
+            reg.unregister([w['IR0']], w['P'], '')
+            reg.unregister([w['IR0'], w['IR0']], w['P'], '')
+        elif mu == 'subscribe':
+            reg.subscribe([w['IR1']], w['P'], w['s_new'])
+        elif mu == 'changed-only':
+            reg._v_lookup.changed(None)
+        elif mu == 'rebase':
+            reg.__bases__ = (w['other'],)
+        else:
+            reg.register([w['IR1']], w['P'], '', w['f_new'])
+            reg.lookup([w['IR0']], w['Q'], '')            # a re-entrant lookup of another key fills the fresh caches
+
+    class LazySeq(list):
+        def __iter__(self):
+            fire()
+            return list.__iter__(self)
+
+        def __len__(self):
+            return list.__len__(self)
+
+    class EqKey:
+        """A required key compared by value: its __eq__ / __hash__ run inside the cache probe."""
+
+        def __init__(self, spec):
+            self.spec = spec
+            self.__sro__ = spec.__sro__
+
+        def __hash__(self):
+            return 7
+
+        def __eq__(self, other):
+            fire()
+            return isinstance(other, EqKey) and other.spec is self.spec
+
+        def weakref(self, cb=None):
+            return self.spec.weakref(cb)
+
+        def subscribe(self, x):
+            return self.spec.subscribe(x)
+
+        def unsubscribe(self, x):
+            return self.spec.unsubscribe(x)
+
+    class HashName(str):
+        def __hash__(self):
+            fire()
+            return str.__hash__(self)
+
+    def call(w, hooked):
+        reg, P, ob = w['reg'], w['P'], w['ob']
+        spec = providedBy(ob) if not (pt == 'providedBy-descriptor' and hooked) else None
+        if spec is None:
+            from zope.interface.declarations import getObjectSpecification
+            spec = getObjectSpecification(ob)
+        req = [spec]
+        if pt == 'lazy-required' and hooked:
+            req = LazySeq(req)
+        if pt == 'required-key-eq' and hooked:
+            req = [EqKey(spec)]
+        name = ''
+        if pt == 'name-hash' and hooked:
+            name = HashName('')
+        if en == 'lookup':
+            return _tagval(reg.lookup(req, P, name))
+        if en == 'lookup1':
+            return _tagval(reg.lookup1(req[0], P, name))
+        if en == 'queryAdapter':
+            return _tagval(reg.queryAdapter(ob, P, name))
+        if en == 'adapter_hook':
+            return _tagval(reg.adapter_hook(P, ob, name))
+        if en == 'lookupAll':
+            return sorted([n, _tagval(v)] for n, v in reg.lookupAll(req, P))
+        if en == 'names':
+            return sorted(reg.names(req, P))
+        if en == 'subscriptions':
+            return _tagval(list(reg.subscriptions(req, P)))
+        if en == 'queryMultiAdapter':
+            objs = [ob, ob]
+            if pt == 'lazy-required' and hooked:
+                objs = LazySeq(objs)
+            return _tagval(reg.queryMultiAdapter(objs, P, name))
+        objs = [ob]
+        if pt == 'lazy-required' and hooked:
+            objs = LazySeq(objs)
+        return _tagval(list(reg.subscribers(objs, P)))
+
+    out = {}
+    # reference answers on twin registries without interruption
+    wb = world(False)
+    out['before'] = call(wb, False)
+    wa = world(False)
+    mutate(wa)
+    out['after'] = call(wa, False)
+
+    w = world(True)
+    reg = w['reg']
+    if RE_WARM[warm] == 'warm-other-key':
+        reg.lookup([w['IR0']], w['Q'], '')
+        reg.lookupAll([w['IR0']], w['Q'])
+        reg.subscriptions([w['IR0']], w['Q'])
+    elif RE_WARM[warm] == 'warm-same-key-then-changed':
+        state['hook'] = None
+        call(w, True)
+        reg._v_lookup.changed(None)
+    if pt == 'value-destructor':
+        # a cached answer whose destructor looks something up while the caches are being released
+        class Dying:
+            def __init__(self, reg, w):
+                self.reg, self.w = reg, w
+
+            def __del__(self):
+                try:
+                    self.reg.lookup([self.w['IR0']], self.w['Q'], '')
+                except Exception:   # noqa
+                    pass
+
+            def __call__(self, *a):
+                return None
+        reg.register([w['IR0']], w['Q'], 'dying', Dying(reg, w))
+        reg.lookup([w['IR0']], w['Q'], 'dying')
+        reg.unregister([w['IR0']], w['Q'], 'dying')     # the cache entry now holds the last reference
+        state['hook'] = lambda: mutate(w)
+        state['fired'] = False
+        # fire from inside the uncached lookup so that changed() releases the cache that holds the dying value
+        pt_saved = pt
+    state['hook'] = lambda: mutate(w)
+    state['fired'] = False
+    gc.collect()
+    probes = [w['IR0'], w['IR1'], w['P'], w['f_old'], providedBy(w['ob']) if pt != 'providedBy-descriptor' else w['IR1']]
+    try:
+        if pt == 'value-destructor':
+            # interruption point: the uncached lookup mutates; releasing the caches runs the destructor, which re-enters
+            state_pt = 'uncached-before'
+            HookedLookup_pt = state_pt
+        out['result'] = call(w, True) if pt != 'value-destructor' else _value_destructor_call(call, w, fire, HookedLookup, reg)
+        out['exception'] = None
+    except Exception as e:   # noqa
+        out['result'] = None
+        out['exception'] = type(e).__name__ + ': ' + str(e)[:80]
+    out['fired'] = state['fired']
+    out['witness_dirty'] = [repr(d)[:80] for d in state['witness'] if len(d)]
+    state['hook'] = None
+    try:
+        out['second'] = call(w, True)
+    except Exception as e:   # noqa
+        out['second'] = _exc(e)
+    if not state['fired']:
+        # the callback point was not reached on this path (e.g. answered from a cache): apply the mutation now so
+        # that 'second' is comparable, and say so
+        return None
+    # reference balance: repeat the interrupted call on the same registry, then release everything
+    reg._v_lookup.changed(None)
+    gc.collect()
+    base = [sys.getrefcount(p) for p in probes]
+    R = 20
+    for _ in range(R):
+        state['hook'] = lambda: reg._v_lookup.changed(None)
+        state['fired'] = False
+        try:
+            call(w, True)
+        except Exception:   # noqa
+            pass
+    state['hook'] = None
+    state['witness'] = []
+    reg._v_lookup.changed(None)
+    gc.collect()
+    after = [sys.getrefcount(p) for p in probes]
+    out['refcount_growth'] = max(a - b for a, b in zip(after, base))
+    return out
+
+
+def _reent_error_path(flav, en):
+    """Every entry point called with an unhashable `provided`: TypeError from the cache probe; nothing may leak."""
+    import gc
+    import sys
+    from zope.interface import Interface, implementer, providedBy
+    from zope.interface.adapter import AdapterRegistry, VerifyingAdapterRegistry
+    from zope.interface.interface import InterfaceClass
+    IR = InterfaceClass('IR', (Interface,), {}, __module__='vp_reent')
+    K = implementer(IR)(type('K', (object,), {}))
+    ob = K()
+    reg = (AdapterRegistry if flav == 0 else VerifyingAdapterRegistry)()
+    reg.register([IR], IR, '', 'x')
+    spec = providedBy(ob)
+
+    class Lazy(list):
+        pass
+
+    def call():
+        P = []
+        if en == 'lookup':
+            return reg.lookup(Lazy([spec]), P, '')
+        if en == 'lookup1':
+            return reg.lookup1(spec, P, '')
+        if en == 'queryAdapter':
+            return reg.queryAdapter(ob, P, '')
+        if en == 'adapter_hook':
+            return reg.adapter_hook(P, ob, '')
+        if en == 'lookupAll':
+            return reg.lookupAll(Lazy([spec]), P)
+        if en == 'names':
+            return reg.names(Lazy([spec]), P)
+        if en == 'subscriptions':
+            return reg.subscriptions(Lazy([spec]), P)
+        if en == 'queryMultiAdapter':
+            return reg.queryMultiAdapter(Lazy([ob, ob]), P, '')
+        return reg.subscribers(Lazy([ob]), P)
+    out = dict(before='TypeError', after='TypeError', fired=True, witness_dirty=[])
+    try:
+        r = call()
+        out['result'], out['exception'] = repr(r), None
+    except TypeError:
+        out['result'], out['exception'] = 'TypeError', None
+    except Exception as e:   # noqa
+        out['result'], out['exception'] = None, type(e).__name__
+    out['second'] = 'TypeError'
+    gc.collect()
+    probes = [spec, IR, ob]
+    base = [sys.getrefcount(p) for p in probes]
+    for _ in range(20):
+        try:
+            call()
+        except Exception:   # noqa
+            pass
+    gc.collect()
+    out['refcount_growth'] = max(sys.getrefcount(p) - b for p, b in zip(probes, base))
+    return out
+
+
+def _value_destructor_call(call, w, fire, HookedLookup, reg):
+    # the mutation is fired from the uncached lookup of the interrupted call (point 'uncached-before' semantics)
+    orig = HookedLookup._uncached_lookup
+
+    def patched(self, required, provided, name=''):
+        fire()
+        return orig(self, required, provided, name)
+    HookedLookup._uncached_lookup = patched
+    try:
+        return call(w, True)
+    finally:
+        HookedLookup._uncached_lookup = orig
+
+
+FAMILIES['reent'] = run_reent
